@@ -176,6 +176,170 @@ def lexS (o : VOpts) (st : TState) (u : Bytes) (pos : Nat) (es : List Event) (f0
     else if k == 0x5D then .res (feed st pos 1 Machine.popArray) pos u es f0
     else .res (.err pos .invalidChar) pos u es f0
 
+/-! ### one value (`decoderState.consumeValue / consumeObject / consumeArray`, decode.go:856-1129)
+
+The recursive descent works on the unread buffer `u` at absolute positions; every blank run, literal, string and
+number inside the value is scanned by the corresponding refill loop at its position (`pos` is re-based after every
+fetch, so from the point of view of the unread buffer refills only append).  Offsets in results are relative to the
+position the function was entered at, with the same arithmetic as Model/Validate.lean, which models the same code
+over a complete buffer.  As there, `d.Tokens.Last` in the `default` arm of consumeValue is the top-level entry; the
+two classes it chooses between are one class after `wrapSyntacticError` (`Validate.observe`). -/
+
+def Fill.rebase {β : Type} (F : Fill β) (u : Bytes) (q : Nat) : Fill β :=
+  match F with
+  | .done b x es f => .done b (u.take q ++ x) es f
+  | .fault x es => .fault (u.take q ++ x) es
+
+def Fill.map {β γ : Type} (g : β → γ) : Fill β → Fill γ
+  | .done b x es f => .done (g b) x es f
+  | .fault x es => .fault x es
+
+/-- blanks from position `q` on: (length of the run, is there a non-blank byte behind it) -/
+def wsAt (u : Bytes) (q : Nat) (es : List Event) : Fill (Nat × Bool) :=
+  (sWhitespace (u.drop q) 0 es).rebase u q
+
+/-- `case 'n' / 'f' / 't'` of consumeValue at `q` -/
+def litAt (l : Bytes) (u : Bytes) (q : Nat) (es : List Event) : Fill (Nat × Wire.Err) :=
+  if Wire.consumeExact l (u.drop q) != 0 then .done (Wire.consumeExact l (u.drop q), .ok) u es false
+  else ((sLiteral l (u.drop q) es).map fun b => (b.1, toWire b.2)).rebase u q
+
+/-- `case '"'` of consumeValue (and the member names of consumeObject) at `q` -/
+def strAt (o : VOpts) (u : Bytes) (q : Nat) (es : List Event) : Fill (Nat × Wire.ValueFlags × Wire.Err) :=
+  if Wire.consumeSimpleString (u.drop q) != 0 then .done (Wire.consumeSimpleString (u.drop q), {}, .ok) u es false
+  else ((sString (!o.allowInvalidUTF8) (u.drop q) es).map fun b => (b.1, toWireFlags b.2.1, toWire b.2.2)).rebase u q
+
+/-- `case '0'` of consumeValue at `q` -/
+def numAt (u : Bytes) (q : Nat) (es : List Event) : Fill (Nat × Wire.Err) :=
+  if Wire.consumeSimpleNumber (u.drop q) == 0 || Wire.lenLt (u.drop q) (Wire.consumeSimpleNumber (u.drop q) + 1) then
+    ((sNumber (u.drop q) es).map fun b => (b.1, toWire b.2)).rebase u q
+  else .done (Wire.consumeSimpleNumber (u.drop q), .ok) u es false
+
+/-- result of scanning a value: `n` and the class are what consumeValue returns relative to its start -/
+inductive VRes where
+  | fault (u : Bytes) (es : List Event)
+  | done (n : Nat) (e : Wire.Err) (u : Bytes) (es : List Event) (fetched : Bool)
+
+def VRes.addOff (k : Nat) (f0 : Bool) : VRes → VRes
+  | .fault u es => .fault u es
+  | .done n e u es f => .done (k + n) e u es (f0 || f)
+
+def VRes.ofFill (f0 : Bool) : Fill (Nat × Wire.Err) → VRes
+  | .fault u es => .fault u es
+  | .done b u es f => .done b.1 b.2 u es (f0 || f)
+
+def byteAt (u : Bytes) (q : Nat) : UInt8 :=
+  match u.drop q with
+  | c :: _ => c
+  | [] => 0
+
+mutual
+/-- decoderState.consumeValue at `p` (`u[p:]` is not empty) -/
+def sValue (o : VOpts) : Nat → Nat → Bytes → Nat → List Event → VRes
+  | 0, _, u, _, es => .done 0 .fuel u es false
+  | fuel + 1, depth, u, p, es =>
+    match u.drop p with
+    | [] => .done 0 .bug u es false
+    | c :: _ =>
+      let k := normKind c
+      if k == 0x6E then .ofFill false (litAt Wire.litNull u p es)
+      else if k == 0x66 then .ofFill false (litAt Wire.litFalse u p es)
+      else if k == 0x74 then .ofFill false (litAt Wire.litTrue u p es)
+      else if k == 0x22 then .ofFill false ((strAt o u p es).map fun b => (b.1, b.2.2))
+      else if k == 0x30 then .ofFill false (numAt u p es)
+      else if k == 0x7B then sObject o fuel depth u p es
+      else if k == 0x5B then sArray o fuel depth u p es
+      else if k == 0x7D then .done 0 .mismatchDelim u es false
+      else .done 0 .invalidChar u es false
+
+/-- decoderState.consumeObject at `p` (`u[p]` is `{`) -/
+def sObject (o : VOpts) : Nat → Nat → Bytes → Nat → List Event → VRes
+  | 0, _, u, _, es => .done 0 .fuel u es false
+  | fuel + 1, depth, u, p, es =>
+    if depth == maxNestingDepth + 1 then .done 0 .maxDepth u es false else
+    match wsAt u (p + 1) es with
+    | .fault u1 es1 => .fault u1 es1
+    | .done (w, found) u1 es1 f1 =>
+      if !found then .done (1 + w) .eof u1 es1 f1
+      else if byteAt u1 (p + 1 + w) == 0x7D then .done (1 + w + 1) .ok u1 es1 f1
+      else (sObjectLoop o fuel (depth + 1) [] u1 (p + 1 + w) es1).addOff (1 + w) f1
+
+/-- the `for` loop of consumeObject from `p` on -/
+def sObjectLoop (o : VOpts) : Nat → Nat → List Bytes → Bytes → Nat → List Event → VRes
+  | 0, _, _, u, _, es => .done 0 .fuel u es false
+  | fuel + 1, depth, names, u, p, es =>
+    -- before name
+    match wsAt u p es with
+    | .fault u1 es1 => .fault u1 es1
+    | .done (w, found) u1 es1 f1 =>
+      if !found then .done w .eof u1 es1 f1 else
+      match strAt o u1 (p + w) es1 with
+      | .fault u2 es2 => .fault u2 es2
+      | .done (n, fl, e) u2 es2 f2 =>
+        if e != .ok then .done (w + n) e u2 es2 (f1 || f2) else
+        let name := unescapedName ((u2.drop (p + w)).take n) fl
+        if !o.allowDup && names.contains name then .done w .dupName u2 es2 (f1 || f2) else
+        let names' := if o.allowDup then names else names ++ [name]
+        -- after name
+        match wsAt u2 (p + w + n) es2 with
+        | .fault u3 es3 => .fault u3 es3
+        | .done (w2, found2) u3 es3 f3 =>
+          if !found2 then .done (w + n + w2) .eof u3 es3 (f1 || f2 || f3) else
+          if byteAt u3 (p + w + n + w2) != 0x3A then .done (w + n + w2) .invalidChar u3 es3 (f1 || f2 || f3) else
+          -- before value
+          match wsAt u3 (p + w + n + w2 + 1) es3 with
+          | .fault u4 es4 => .fault u4 es4
+          | .done (w3, found3) u4 es4 f4 =>
+            if !found3 then .done (w + n + w2 + 1 + w3) .eof u4 es4 (f1 || f2 || f3 || f4) else
+            match sValue o fuel depth u4 (p + w + n + w2 + 1 + w3) es4 with
+            | .fault u5 es5 => .fault u5 es5
+            | .done k e u5 es5 f5 =>
+              if e != .ok then .done (w + n + w2 + 1 + w3 + k) e u5 es5 (f1 || f2 || f3 || f4 || f5) else
+              -- after value
+              match wsAt u5 (p + w + n + w2 + 1 + w3 + k) es5 with
+              | .fault u6 es6 => .fault u6 es6
+              | .done (w4, found4) u6 es6 f6 =>
+                if !found4 then .done (w + n + w2 + 1 + w3 + k + w4) .eof u6 es6 (f1 || f2 || f3 || f4 || f5 || f6)
+                else if byteAt u6 (p + w + n + w2 + 1 + w3 + k + w4) == 0x2C then
+                  (sObjectLoop o fuel depth names' u6 (p + w + n + w2 + 1 + w3 + k + w4 + 1) es6).addOff
+                    (w + n + w2 + 1 + w3 + k + w4 + 1) (f1 || f2 || f3 || f4 || f5 || f6)
+                else if byteAt u6 (p + w + n + w2 + 1 + w3 + k + w4) == 0x7D then
+                  .done (w + n + w2 + 1 + w3 + k + w4 + 1) .ok u6 es6 (f1 || f2 || f3 || f4 || f5 || f6)
+                else .done (w + n + w2 + 1 + w3 + k + w4) .invalidChar u6 es6 (f1 || f2 || f3 || f4 || f5 || f6)
+
+/-- decoderState.consumeArray at `p` (`u[p]` is `[`) -/
+def sArray (o : VOpts) : Nat → Nat → Bytes → Nat → List Event → VRes
+  | 0, _, u, _, es => .done 0 .fuel u es false
+  | fuel + 1, depth, u, p, es =>
+    if depth == maxNestingDepth + 1 then .done 0 .maxDepth u es false else
+    match wsAt u (p + 1) es with
+    | .fault u1 es1 => .fault u1 es1
+    | .done (w, found) u1 es1 f1 =>
+      if !found then .done (1 + w) .eof u1 es1 f1
+      else if byteAt u1 (p + 1 + w) == 0x5D then .done (1 + w + 1) .ok u1 es1 f1
+      else (sArrayLoop o fuel (depth + 1) u1 (p + 1 + w) es1).addOff (1 + w) f1
+
+/-- the `for` loop of consumeArray from `p` on -/
+def sArrayLoop (o : VOpts) : Nat → Nat → Bytes → Nat → List Event → VRes
+  | 0, _, u, _, es => .done 0 .fuel u es false
+  | fuel + 1, depth, u, p, es =>
+    match wsAt u p es with
+    | .fault u1 es1 => .fault u1 es1
+    | .done (w, found) u1 es1 f1 =>
+      if !found then .done w .eof u1 es1 f1 else
+      match sValue o fuel depth u1 (p + w) es1 with
+      | .fault u2 es2 => .fault u2 es2
+      | .done k e u2 es2 f2 =>
+        if e != .ok then .done (w + k) e u2 es2 (f1 || f2) else
+        match wsAt u2 (p + w + k) es2 with
+        | .fault u3 es3 => .fault u3 es3
+        | .done (w4, found4) u3 es3 f3 =>
+          if !found4 then .done (w + k + w4) .eof u3 es3 (f1 || f2 || f3)
+          else if byteAt u3 (p + w + k + w4) == 0x2C then
+            (sArrayLoop o fuel depth u3 (p + w + k + w4 + 1) es3).addOff (w + k + w4 + 1) (f1 || f2 || f3)
+          else if byteAt u3 (p + w + k + w4) == 0x5D then .done (w + k + w4 + 1) .ok u3 es3 (f1 || f2 || f3)
+          else .done (w + k + w4) .invalidChar u3 es3 (f1 || f2 || f3)
+end
+
 /-- The common head of ReadToken / ReadValue / PeekKind without a cached peek (decode.go:486-516, 695-725, 324-356),
 on the unread buffer `u`: leading blanks, end of input, an optional `:`/`,` and blanks (a read error there is
 outranked by an invalid delimiter: `checkDelimBeforeIOError`), `needDelim`; then `lex` handles what starts at the
